@@ -348,9 +348,9 @@ MANIFEST_TEXT = {
         "technique": "Lean 4 theorems on an executable model of the renderers' decision logic with checked arithmetic + differential correspondence on parsed renderings + direct oracles on all four renderers",
     },
     "C13": {
-        "text": "PARTIAL. Machine-checked for the logic scrut contributes: (a) template rendering: if after the four other substitutions the expression placeholder occurs exactly once (decidable, evaluated on the current template at every run) there are fixed pre/post such that for EVERY expression, also ones containing placeholder names, the script handed to the shell is pre ++ expression ++ post (C13_expression_verbatim; C13_replace_absent/once about str::replace; C13_expression_hypothesis_needed shows the hypothesis is necessary); (b) replace_crlf: the loop never slices out of range and equals the specification 'drop a byte iff it is CR and the next is LF' for outputs of any size, only CRs disappear, order kept, CR CR LF keeps one CR (C13_crlf, C13_crlf_characterisation); render_output is the identity under keep_crlf, never consults the ANSI stripper unless strip_ansi_escaping, and strips after CRLF processing (C13_keep_crlf_identity, C13_no_strip_only_crlf, C13_strip_after_crlf); (c) single-script mode: for any salt without ':', '~', LF (the real one is 20 random alphanumeric characters per execution), any payloads (empty, unterminated, arbitrary bytes) that do not contain the divider start of this very execution (~~~~~~~~EXECDIVIDER::<salt>::) and exit codes < 2^31 other than the skip code, splitting the streams 'payload, divider line' returns every test's own stdout, stderr and exit code, separated or merged (C13_stream_roundtrip_partial, C13_divider_roundtrip_partial, C13_divider_roundtrip_combined_partial). Output that merely looks like a divider (bare prefix, complete divider lines with another salt) is output: C13_divider_lookalike_is_output (regression for fix 05d9dbd); some guard is unavoidable for an in-band protocol (C13_divider_guard_needed). NOT proved, exercised with real processes on every run: what bash does with the script text, pipe capacity/deadlock with megabytes on both streams at once, Redirection::Merge ordering, stack depth; exit codes 0..255, NUL bytes, all byte values, both executors, all output_stream/keep_crlf/strip_ansi settings, with the bytes the payload program was told to write as oracle.",
+        "text": "PARTIAL. Machine-checked for the logic scrut contributes: (a) template rendering: if after the four other substitutions the expression placeholder occurs exactly once (decidable, evaluated on the current template at every run) there are fixed pre/post such that for EVERY expression, also ones containing placeholder names, the script handed to the shell is pre ++ expression ++ post (C13_expression_verbatim; C13_replace_absent/once about str::replace; C13_expression_hypothesis_needed shows the hypothesis is necessary); (b) replace_crlf: the loop never slices out of range and equals the specification 'drop a byte iff it is CR and the next is LF' for outputs of any size, only CRs disappear, order kept, CR CR LF keeps one CR (C13_crlf, C13_crlf_characterisation); render_output is the identity under keep_crlf, never consults the ANSI stripper unless strip_ansi_escaping, and strips after CRLF processing (C13_keep_crlf_identity, C13_no_strip_only_crlf, C13_strip_after_crlf); with strip_ansi_escaping the stripper is scrut's own strip_ansi_sequences_bytes (Model/StripAnsi.lean, after fix 9d4fe80): the recorded bytes are a subsequence of the processed bytes, hold no ESC, are the processed bytes themselves when those hold no ESC (TAB, CR, BEL, invalid UTF-8 survive), a CSI sequence goes as a whole and stripping is idempotent (C13_strip_only_escape_sequences, C13_strip_csi, C13_strip_idempotent; tied by every byte string up to length 4/5 over the 14 bytes that steer the state machine + random bytes, against the model and an ECMA-48 reference); (c) single-script mode: for any salt without ':', '~', LF (the real one is 20 random alphanumeric characters per execution), any payloads (empty, unterminated, arbitrary bytes) that do not contain the divider start of this very execution (~~~~~~~~EXECDIVIDER::<salt>::) and exit codes < 2^31 other than the skip code, splitting the streams 'payload, divider line' returns every test's own stdout, stderr and exit code, separated or merged (C13_stream_roundtrip_partial, C13_divider_roundtrip_partial, C13_divider_roundtrip_combined_partial). Output that merely looks like a divider (bare prefix, complete divider lines with another salt) is output: C13_divider_lookalike_is_output (regression for fix 05d9dbd); some guard is unavoidable for an in-band protocol (C13_divider_guard_needed). NOT proved, exercised with real processes on every run: what bash does with the script text, pipe capacity/deadlock with megabytes on both streams at once, Redirection::Merge ordering, stack depth; exit codes 0..255, NUL bytes, all byte values, both executors, all output_stream/keep_crlf/strip_ansi settings, with the bytes the payload program was told to write as oracle.",
         "design_ref": "DESIGN.md §6 C13",
-        "note": "Partial by nature: bash, pipes and the OS are not modelled. Trusted: kernel + 3 standard axioms, the correspondence harness, statement reading; strip_ansi_escapes and shell_escape are parameters. Defects repaired by fix: 35f71bc (placeholders inside the user's expression were substituted), 4cdb4c6 (recursive replace_crlf overflowed the stack), 05d9dbd (the divider parser ignored the salt: divider-shaped output broke the document), 1cc9f8c (remove_dividers_from_output doubled newlines of output captured before a document timeout). remove_dividers_from_output (timeout path only) still drops every line that starts with the bare prefix, whatever its salt (modelled as it is; outside the statement, which is about completed test cases).",
+        "note": "Partial by nature: bash, pipes and the OS are not modelled. Trusted: kernel + 3 standard axioms, the correspondence harness, statement reading; shell_escape is a parameter; the `strip-ansi-escapes` crate is no longer on the recording path. Defects repaired by fix: 9d4fe80 (strip_ansi_escaping dropped TAB/CR/BEL and replaced invalid UTF-8), 35f71bc (placeholders inside the user's expression were substituted), 4cdb4c6 (recursive replace_crlf overflowed the stack), 05d9dbd (the divider parser ignored the salt: divider-shaped output broke the document), 1cc9f8c (remove_dividers_from_output doubled newlines of output captured before a document timeout). remove_dividers_from_output (timeout path only) still drops every line that starts with the bare prefix, whatever its salt (modelled as it is; outside the statement, which is about completed test cases).",
         "technique": "Lean 4 theorems on executable models of template rendering, CRLF replacement and the divider protocol + differential correspondence with real processes (cat/replay/capture shells, real bash) + direct byte/exit-code oracles",
     },
     "C17": {
